@@ -227,3 +227,14 @@ Proof.
   { rewrite app_length. unfold put_u64. rewrite !le_enc_length. reflexivity. }
   rewrite skipn_app_exact by exact L. rewrite <- app_assoc. reflexivity.
 Qed.
+
+(** storages with the same shape and the same map contents save to the same stream *)
+Lemma save_meq st st' : Inv st -> Inv st' -> same_shape st' st -> meq (s_data st') (s_data st) ->
+  save st' = save st.
+Proof.
+  intros I I' [Sc Su] M. unfold save, save_iter. rewrite Sc, Su.
+  assert (K : sortN (map fst (s_data st')) = sortN (map fst (s_data st))).
+  { apply sortN_perm. apply NoDup_Permutation; try apply I; try apply I'.
+    intro k. rewrite <- !get_in_keys, M. reflexivity. }
+  rewrite K. f_equal. f_equal. f_equal. apply flat_map_ext. intro a. rewrite M. reflexivity.
+Qed.
